@@ -135,8 +135,20 @@ def doHist (ws : List String) : Option String := do
     else if w.startsWith "k" then (w.drop 1).toNat?.map (fun n => (List.range n).flatMap (fun k => [ObjOp.obsCopy k true, ObjOp.obsCopy k false]))
     else if w.startsWith "a" then (w.drop 1).toNat?.map (fun p => [ObjOp.assign p]) else none
   let outs := runObj (fun (p : Nat) => (p, false)) (fun (s : Nat × Bool) => (s.1, true)) ⟨0, (0, false), []⟩ ops.flatten
-  pure (",".intercalate (outs.map fun (p, d, s) =>
+  -- an undisciplined history (an observation between assign and solve) is flagged: `runObj_pure` does not apply to it
+  pure ((if disciplinedOps true ops.flatten then "" else "undisciplined ") ++ ",".intercalate (outs.map fun (p, d, s) =>
     toString p ++ ":" ++ toString s.1 ++ ":" ++ (if d then "D" else "L") ++ (if s.2 == d then "" else "!")))
+
+/-- `mcert nf F G Hc J Z Hm D` -> max-abs of the lead columns of `G` (must be 0), of `F Z + G_b`, `F D + Hc`, `F Hm + J`, scale -/
+def doMCert (ws : List String) : Option String := do
+  let (nf, ws) ← pNat ws
+  let (ms, _) ← pMats 7 ws
+  match ms with
+  | [F, G, Hc, Jm, Z, Hm, D] =>
+    let (gl, z, dd, h, sc) := measurementCertificate nf F G Hc Jm Z Hm D
+    pure ("ok gLead=" ++ QMat.showRat gl ++ " Z=" ++ QMat.showRat z ++ " D=" ++ QMat.showRat dd ++ " H=" ++ QMat.showRat h ++
+      " scale=" ++ QMat.showRat sc)
+  | _ => none
 
 /-- `plan n M D` -> `i:j,…` (model variant : data variant per output) or `err:bad` -/
 def doPlan (ws : List String) : Option String := do
@@ -157,6 +169,7 @@ def step (line : String) : String :=
     | "memo" :: ws => doMemo ws
     | "hist" :: ws => doHist ws
     | "plan" :: ws => doPlan ws
+    | "mcert" :: ws => doMCert ws
     | "sim" :: ws => doSim ws
     | _ => none
   r.getD "bad-op"
